@@ -16,7 +16,7 @@ Field values:
    ("unknown", why)
 """
 from collections import defaultdict
-from .common import walk, src, strip, AnchorError, pat_alternatives, tail_expr, load_table
+from .common import is_node_scrutinee, walk, src, strip, AnchorError, pat_alternatives, tail_expr, load_table
 
 SCOPING = ["raises_caught", "in_loop", "in_fun", "return_type", "class", "is_expr", "is_def_mode", "is_destruct_mode"]
 DATA = ["vars", "var_mapping", "unassigned"]
@@ -235,6 +235,25 @@ class Builders:
         else:
             tail = tail_expr(fn["body"])
             tail = strip(tail) if tail else {}
+            if tail.get("k") == "mcall" and src(strip(tail["recv"])) == "self" and tail["m"] in self._fns and tail["m"] != name:
+                # the builder ends in another builder applied to self (`self.with_unassigned(<expr>)`): a field the callee sets from its
+                # parameters alone is set here from the corresponding arguments, classified in this function's own terms
+                cparams, ceff = self._effects_of(tail["m"], stack + (name,))
+                effects = {}
+                for fname, eff in ceff.items():
+                    pdeps = [pn for pn in (eff[1] if len(eff) > 1 and isinstance(eff[1], list) else []) if pn in cparams and cparams.index(pn) < len(tail["args"])]
+                    if eff[0] == "assign" and len(pdeps) == 1:
+                        effects[fname] = self._classify(fn, fname, tail["args"][cparams.index(pdeps[0])], params)
+                    elif eff[0] in ("assign", "update"):
+                        deps = set()
+                        for pn in pdeps:
+                            c_ = self._classify(fn, fname, tail["args"][cparams.index(pn)], params)
+                            deps |= set(c_[1]) if len(c_) > 1 and isinstance(c_[1], list) else set()
+                        effects[fname] = ("update", sorted(deps))
+                    else:
+                        effects[fname] = eff
+                self.eff[name] = (params, effects)
+                return self.eff[name]
             if tail.get("k") != "path":
                 raise AnchorError(f"builder Environment::{fn['name']} does not end in a struct update or in a local copy of self")
             var = tail["p"]
@@ -566,7 +585,7 @@ class Interp:
 
     def ev_match(self, e, scope, top=False):
         sv = self.ev(e["e"], scope)
-        is_dispatch = top and src(strip(e["e"])).replace(" ", "") in ("ast.node", "&ast.node")
+        is_dispatch = top and is_node_scrutinee(e["e"])
         result = None
         any_value = False
         all_diverge = True
